@@ -64,6 +64,9 @@ def object_roots(fn, cls):
     return roots
 
 
+ELEMS = {}
+
+
 def fields_reset_in(fn, cls):
     """Set of first-level field names of K reset/assigned in fn."""
     roots = object_roots(fn, cls)
@@ -79,12 +82,36 @@ def fields_reset_in(fn, cls):
             return parts[1].replace("[]", "")
         return None
 
+    def note_elem(lhs, f):
+        """record which element of an array member is assigned (constant index) or '*' (computed index / whole object)"""
+        y = fn.e(fn.strip(lhs))
+        idx = "*"
+        hops = 0
+        while y and hops < 6:
+            if y["k"] == "subscript":
+                b = fn.e(fn.strip(y["base"]))
+                if b and b["k"] == "member" and b.get("field") == f:
+                    ix = fn.e(fn.strip(y["idx"]))
+                    idx = ix["cv"] if ix is not None and isinstance(ix.get("cv"), int) else "*"
+                    break
+                y = b
+            elif y["k"] == "member":
+                if y.get("field") == f:
+                    break
+                y = fn.e(fn.strip(y["base"]))
+            else:
+                break
+            hops += 1
+        ELEMS.setdefault((id(out), f), set()).add(idx)
+        out.setdefault("elems:" + f, set()).add(idx)
+
     for i, x in fn.ex.items():
         k = x["k"]
         if k == "binop" and (x["op"] == "=" or x["op"].endswith("=") and x["op"] not in ("==", "!=", "<=", ">=")):
             f = first_field(fn.access_path(x["lhs"]))
             if f:
                 out.setdefault(f, ("assign", x["l"]))
+                note_elem(x["lhs"], f)
         elif k == "opcall" and x.get("op") == "=" and x.get("obj"):
             f = first_field(fn.access_path(x["obj"]))
             if f:
@@ -162,9 +189,15 @@ def run(chk, config, rule="R-RESET-COVERS"):
                 for n in names:
                     chk.need(n in fns, "closure function %s not found in %s" % (n, unit))
             covered = {}
+            elems = {}
             for n in names:
                 for fld, how in fields_reset_in(fns[n], cls).items():
+                    if fld.startswith("elems:"):
+                        elems.setdefault(fld[6:], set()).update(how)
+                        continue
                     covered.setdefault(fld, (how[0], n, how[1]))
+                    if how[0] != "assign":
+                        elems.setdefault(fld, set()).add("*")
             nreq = 0
             for fld in rec["fields"]:
                 why = needs_reset(fld, ent.get("composite_types", []))
@@ -172,11 +205,23 @@ def run(chk, config, rule="R-RESET-COVERS"):
                     why = "mutated (by %s)" % mutated[fld["name"]][0].replace("asmjit::", "")
                 if "only_fields" in ent:
                     why = "pointer" if fld["name"] in ent["only_fields"] else None
+                if ent.get("all_fields") and not why:
+                    why = "state"
                 if not why:
                     continue
                 nreq += 1
                 inst = "%s|%s|%s" % (cls.replace("asmjit::", ""), root.split("::")[-1], fld["name"])
-                if fld["name"] in covered or "*" in covered:
+                am = re.search(r"\[(\d+)\]\s*$", fld["ty"])
+                part = None
+                if am and fld["name"] in covered and "*" not in covered:
+                    got = elems.get(fld["name"], {"*"})
+                    if "*" not in got and not set(range(int(am.group(1)))) <= got:
+                        part = sorted(set(range(int(am.group(1)))) - got)
+                if part is not None:
+                    chk.ob(rule, inst, False, loc="%s:%d" % (fns[rq].file.replace("/repo/", ""), fns[rq].line),
+                           detail="array member `%s` (%s): the closure of %s resets only some elements, element(s) %s keep their old value" % (
+                               fld["name"], fld["ty"], root, part), key="resetcovers|" + inst + "|elements")
+                elif fld["name"] in covered or "*" in covered:
                     chk.ob(rule, inst, True, loc="%s:%d" % (unit, fld["line"]))
                 elif fld["name"] in exempt or (root.split("::")[-1] + "|" + fld["name"]) in exempt:
                     why_ex = exempt.get(fld["name"]) or exempt[root.split("::")[-1] + "|" + fld["name"]]
